@@ -103,12 +103,14 @@ fn generate(rng: &mut Rng) -> C17Sc {
         discovery: Script::always(Some(*rng.pick(&[0u64, secs(1), secs(5), secs(17)])), DiscRes::Targets(vec![TargetSpec { id: "t0".into(), addr: "10.9.8.7:25565".into(), meta: Default::default() }])),
         ..Default::default()
     };
+    // (a third of the application runs discover their targets through the Agones adapter and a simulated API server)
+    let use_start = !crash && rng.chance(1, 3);
     C17Sc {
         net: NetScenario {
             seed: rng.next_u64(),
             // a third of the runs go through the application entry point: passage::start(config), stopped
             // by the (simulated) interrupt signal it listens for
-            cfg: NetCfg { secret: None, expiry: None, max_frame: None, timeout_ns: secs(timeout_s), proxy, limiter: None, use_start: !crash && rng.chance(1, 3) },
+            cfg: NetCfg { secret: None, expiry: None, max_frame: None, timeout_ns: secs(timeout_s), proxy, limiter: None, use_start, agones: use_start && rng.chance(1, 3) },
             wall: Default::default(),
             services,
             clients,
@@ -266,6 +268,12 @@ impl Check for C17 {
         };
         rep.merge_counts(&out.faults, &out.probes);
         *rep.faults.entry(if sc.net.cfg.use_start { "interrupt_signal_to_application".to_string() } else { "stop_signal".to_string() }).or_insert(0) += 1;
+        if sc.net.cfg.use_start && sc.net.cfg.agones {
+            *rep.faults.entry("discovery_through_the_agones_adapter".into()).or_insert(0) += 1;
+            if out.clients.iter().any(|c| c.view.first("Transfer").is_some()) {
+                *rep.probes.entry("player_routed_to_an_agones_game_server".into()).or_insert(0) += 1;
+            }
+        }
         if sc.net.clients.iter().any(|c| !c.spec.cuts.is_empty()) {
             *rep.faults.entry("proxy_header_trickles_in".into()).or_insert(0) += 1;
         }
